@@ -152,6 +152,41 @@ theorem step_child {t : Tree} (h : WF t) {k : Nat} {up : Ptr} {p v : Tree}
       simp
     rw [this]; rfl
 
+/-! ### keys: every child is reached by exactly its own key -/
+
+theorem step_struct_child {t : Tree} (h : WF t) {k : Nat} {n : Ptr} {p v : Tree}
+    (hp : deref t n = some p) (hk : p.kids[k]? = some v) (hkind : p.info.kind = .struct) :
+    step t n (.inl v.info.name) = some (k :: n) := by
+  have := step_child h hp hk
+  unfold part at this
+  rw [hkind] at this
+  simpa [List.foldlM_cons, List.foldlM_nil] using this
+
+theorem step_array_child {t : Tree} (h : WF t) {k : Nat} {n : Ptr} {p v : Tree}
+    (hp : deref t n = some p) (hk : p.kids[k]? = some v) (hkind : p.info.kind = .array) :
+    step t n (.inr (k : Int)) = some (k :: n) := by
+  have hl := (wf_local (wf_deref h hp)).1
+  unfold localOK at hl
+  rw [hkind] at hl
+  have hix := index_of_indexFrom hl hk
+  have hix' : v.info.index = (k : Int) := by rw [hix]; congr 1; omega
+  have := step_child h hp hk
+  unfold part at this
+  rw [hkind, hix'] at this
+  simpa [List.foldlM_cons, List.foldlM_nil] using this
+
+theorem names_nodup_of {kids : List Tree} (h : namesNodup kids = true) :
+    (kids.map (fun c => c.info.name)).Nodup := by
+  induction kids with
+  | nil => simp
+  | cons c cs ih =>
+    simp [namesNodup] at h
+    rw [List.map_cons, List.nodup_cons]
+    refine ⟨?_, ih h.2⟩
+    intro hmem
+    obtain ⟨d, hd, he⟩ := List.mem_map.mp hmem
+    exact h.1 d hd he
+
 theorem path_resolves {t : Tree} (h : WF t) (n : Ptr) {v : Tree} (hv : deref t n = some v) :
     resolve t (pathOf t n) = some n := by
   induction n generalizing v with
